@@ -69,6 +69,15 @@ def variant_cond(g, cg, t, doc):
         return "rebuilt", y
     l = g.r.choice(leaves)
     kk = g.r.random()
+    if len(l.args) >= 2 and g.r.random() < 0.3:
+        # the multiset and the order of positional arguments matter: (a, b) vs (a, b, b) vs (b, a)
+        va = any(m == l.method and v for (m, _pk, v, _kw) in cg.methods[l.cls])
+        if va and g.r.random() < 0.6:
+            l.args.insert(g.r.randint(0, len(l.args)), copy.deepcopy(g.r.choice(l.args)))
+            return "argument-duplicated", y
+        i, j = g.r.sample(range(len(l.args)), 2)
+        l.args[i], l.args[j] = l.args[j], l.args[i]
+        return "arguments-swapped", y
     if kk < 0.5 and (l.args or l.kwargs):
         if l.args and (not l.kwargs or g.r.random() < 0.7):
             i = g.r.randrange(len(l.args))
